@@ -28,12 +28,15 @@ F = {   # functions under contract (pool level)
     'tp_dtor': rx('cocls::thread_pool::~thread_pool()'), 'tp_is_stopped': rx('cocls::thread_pool::is_stopped() const'), 'tp_any_enqueued': rx('cocls::thread_pool::any_enqueued()'),
     'tp_is_current': rx('cocls::is_current(cocls::thread_pool const&)'), 'cur_is_stopped': rx('cocls::thread_pool::current::is_stopped()'),
     'cur_any_enqueued': rx('cocls::thread_pool::current::any_enqueued()'), 'cur_await_ready': rx('cocls::thread_pool::current::current_awaiter::await_ready()'),
+    'tp_ctor': rx('cocls::thread_pool::thread_pool(unsigned int)'),
+    'thread_body': r'^cocls::thread_pool::thread_pool\(unsigned int\)::\{lambda\(\)#1\}::operator\(\)\(\) const$',
     'cv_wait_pred': r'^void std::condition_variable::wait<cocls::thread_pool::worker\(\)::\{lambda\(\)#1\}>\(',
 }
-def unitA(name, alias, names=None, names_opt=None, boundary=(), defines=(), **kw):
+THR_CTOR = r'^std::thread::thread<cocls::thread_pool::thread_pool\(unsigned int\)::\{lambda\(\)#1\}, , void>\('
+def unitA(name, alias, names=None, names_opt=None, boundary=(), defines=(), ptypes=None, **kw):
     nm = {alias: F[alias]}; nm.update(names or {})
     no = dict(ABS); no.update(names_opt or {})
-    d = dict(name=name, driver='c11_pool.cpp', roots=[F[alias]], names=nm, names_opt=no, types=TYPES, globals=GLOBALS, boundary=BOUNDARY_A + list(boundary), lib=LIBS_A,
+    d = dict(name=name, driver='c11_pool.cpp', roots=[F[alias]], names=nm, names_opt=no, types=TYPES, globals=GLOBALS, ptypes=dict(ptypes or {}), boundary=BOUNDARY_A + list(boundary), lib=LIBS_A,
              spec=['C11/tp_spec.h', 'C11/h_tp.c'], harness='h_' + name, enforce=alias, defines=HOOKS + list(defines), under_contract=[F[alias].strip('^$').replace('\\', '')], timeout=600)
     d.update(kw)
     return d
@@ -42,13 +45,41 @@ UNITS = [
     unitA('enqueue', 'tp_enqueue'),
     unitA('is_stopped', 'tp_is_stopped'),
     unitA('any_enqueued', 'tp_any_enqueued'),
-    unitA('worker', 'tp_worker', names={'cv_wait_pred': F['cv_wait_pred']}, loop_contracts=True),
+    unitA('worker', 'tp_worker', names={'cv_wait_pred': F['cv_wait_pred']}, loop_contracts=True,
+          replay=dict(src='c11_dtor_under_lock.cpp', mode='dtor_under_lock', flags=['-pthread', '-g'], timeout=60)),
     unitA('dtor', 'tp_dtor', names_opt={'tp_stop_abs': F['tp_stop']}, boundary=[F['tp_stop']]),
     unitA('is_current', 'tp_is_current'),
     unitA('cur_is_stopped', 'cur_is_stopped'),
     unitA('cur_any_enqueued', 'cur_any_enqueued'),
     unitA('cur_await_ready', 'cur_await_ready', defines=LOCKCHK_AR),
+    unitA('ctor', 'tp_ctor', names_opt={'thr_ctor': THR_CTOR, 'tv_push_back': rx(TVT + '::push_back(std::thread&&)'), 'thr_hw': rx('std::thread::hardware_concurrency()')},
+          boundary=[THR_CTOR], ptypes={'LAMCTOR': THR_CTOR + '#1'}, loop_contracts=True, defines=['TP_IN_CTOR 1']),
+    unitA('thread_body', 'thread_body', names_opt={'tp_worker_abs': F['tp_worker']}, boundary=[F['tp_worker']], ptypes={'LAMCTOR': F['thread_body'] + '#0'}),
     unitA('stop', 'tp_stop', loop_contracts=True, defines=['TP_TRACK_THREADS 1', 'TP_MAXTHR (1ul << 20)', 'TP_ALLOC_THR (in_nthr + 1)']),
+]
+RS_CTOR = r'^cocls::function<void \(\), 64ul>::function_base<cocls::thread_pool::resume<void>\('
+RS_SP = rx('void cocls::thread_pool::resume<void>(cocls::suspend_point<void>&)')
+RS_CQ = rx('cocls::coro_queue::resume(std::__n4861::coroutine_handle<void>)')
+UNITS += [
+    dict(name='resume_sp_fwd', driver='c11_pool.cpp', roots=[RS_SP], names={'rs_resume_sp': RS_SP}, names_opt={'rs_closure_ctor': RS_CTOR, 'rs_enqueue': F['tp_enqueue'], 'rs_qi_dtor': ABS['qi_dtor'], 'rs_cq_resume': RS_CQ},
+         types={'TP': 'cocls::thread_pool', 'QI': 'cocls::function<void (), 64UL>', 'SP': 'cocls::suspend_point<void>'}, ptypes={'LAMRES': RS_CTOR + '#1'}, globals={},
+         boundary=[RS_CTOR, F['tp_enqueue'], ABS['qi_dtor'], RS_CQ], lib=['rt_core.c', 'rt_atomic_seq.c'], spec=['C11/tp_spec.h', 'C11/h_tp.c'], harness='h_resume_sp_fwd', enforce='rs_resume_sp',
+         loop_contracts=True, defines=[], under_contract=['void cocls::thread_pool::resume<void>(cocls::suspend_point<void>&)'], timeout=600),
+]
+EAWT = 'cocls::thread_pool::enqueue_awaiter<cocls::co_awaiter<cocls::future<int> > >'
+EA_PR = rx(EAWT + '::perform_resume(cocls::awaiter*, void*)')
+EA_RES = rx('void cocls::thread_pool::resume<void>(cocls::suspend_point<void>&&)')
+EA_SPD = rx('cocls::suspend_point<void>::~suspend_point()')
+UNITS += [
+    dict(name='pool_await_fwd', driver='c11_pool.cpp', roots=[EA_PR], names={'ea_perform_resume': EA_PR}, names_opt={'ea_pool_resume': EA_RES, 'ea_sp_dtor': EA_SPD},
+         types={'TP': 'cocls::thread_pool', 'SP': 'cocls::suspend_point<void>', 'AWT': 'cocls::awaiter', 'EAW': EAWT}, globals={}, boundary=[EA_RES, EA_SPD],
+         lib=['rt_core.c', 'rt_atomic_seq.c'], spec=['C11/tp_spec.h', 'C11/h_tp.c'], harness='h_pool_await_fwd', enforce='ea_perform_resume', defines=[],
+         under_contract=[EAWT + '::perform_resume(cocls::awaiter*, void*)'], timeout=300),
+]
+UNITS += [
+    dict(name='lemma_exactly_once', kind='lemma', driver='c11_pool.cpp', roots=[F['tp_is_current']], names={}, types={}, globals={}, boundary=[], lib=['rt_core.c', 'rt_atomic_seq.c'],
+         spec=['C11/h_tp.c'], harness='h_lemma_exactly_once', loop_contracts=True, defines=['C11_LEMMA_EXACTLY_ONCE 1'],
+         under_contract=['lemma over the tracked-closure clauses of the contracts of enqueue / worker / stop'], timeout=300),
 ]
 # ---- layer B (closure level): real closures + real function<> machinery, plain CBMC harnesses (specs/C11/cl_spec.h, h_cl.c)
 CHT = 'std::__n4861::coroutine_handle<void>'
@@ -76,10 +107,16 @@ def unitB(name, fns, abstract=(), types=(), globals_=(), defines=(), extra_names
     d = dict(name=name, kind='lemma', driver='c11_pool.cpp', roots=list(names.values()), names=names, names_opt=no,
              types={k: TYPES_B[k] for k in ('TP', 'QI', 'FB') + tuple(types)}, globals={k: dict(TI, **GLOBALS)[k] for k in globals_}, boundary=[G[a] for a in abstract] + [r'^std::bad_function_call::'],
              lib=['rt_core.c', 'rt_atomic_seq.c'], spec=['C11/cl_spec.h', 'C11/h_cl.c'], harness='h_' + name, defines=list(defines), unwind=8,
-             under_contract=[G[f].strip('^$').replace('\\', '') for f in fns if not f.startswith('drv_') and not f.startswith('fn_from')], timeout=600)
+             under_contract=[UC.get(f, G[f].strip('^$').replace('\\', '')) for f in fns if f not in ('fn_default',)], timeout=600)
     d.update(kw)
     return d
 FNOPS = ['fn_move', 'fn_dtor', 'fn_call']
+UC = {'tp_run_fn': 'cocls::thread_pool::run<Fn>(Fn&&) [Fn = IntJob&] and the closure it submits', 'drv_rd_tjob': 'cocls::thread_pool::run_detached<Fn>(Fn&&) [Fn = TJob]',
+      'aw_suspend': 'cocls::thread_pool::co_awaiter::await_suspend(std::coroutine_handle<>) with its closure and the cancelling unique_ptr deleter',
+      'tp_run_async': 'cocls::thread_pool::run<int>(cocls::async<int>&) with resume<bool>(suspend_point<bool>&) and the closure it submits',
+      'tp_resume_sp': 'cocls::thread_pool::resume<void>(cocls::suspend_point<void>&) with the closure it submits',
+      'fn_call': 'cocls::function_base<64, false, void>::operator()() const (virtual dispatch into FnInst<Fn>::call)',
+      'fn_move': 'cocls::function<void()>::function(function&&) (FnInstSmall<Fn>::move / FnInst<Fn>::move)', 'fn_dtor': 'cocls::function<void()>::~function() (virtual deleting destructors of FnInst / FnInstSmall)'}
 UNITS += [
     unitB('co_await', ['aw_suspend', 'aw_resume', 'aw_ready', 'tp_co_await'] + FNOPS, abstract=['tp_enqueue', 'cq_resume'], types=['CAW'], globals_=['TI_AWAIT_CANCELED']),
     unitB('cur_co_await', ['cur_co_await'], types=['CAW'], globals_=['TP_CURRENT']),
@@ -88,8 +125,77 @@ UNITS += [
     unitB('fn_life_small', FNOPS + ['fn_move_assign', 'fn_bool', 'fn_default'], extra_names={'fn_from_t': r'^drv_fn_from_tjob$'}, globals_=['TI_BAD_FUNCTION_CALL'], harness='h_fn_life'),
     unitB('fn_life_big', FNOPS + ['fn_move_assign', 'fn_bool', 'fn_default'], extra_names={'fn_from_t': r'^drv_fn_from_bigjob$'}, globals_=['TI_BAD_FUNCTION_CALL'], harness='h_fn_life', defines=['FN_BIG 1']),
     unitB('resume_sp_stopped', ['tp_resume_sp'] + FNOPS, abstract=['tp_enqueue', 'cq_resume', 'ch_destroy'], types=['SP', 'CH'], harness='h_resume_sp',
+          replay=dict(src='c11_stopped_pool.cpp', mode='resume_sp', flags=['-pthread', '-g'], timeout=60),
           bounded='suspend points of 0..4 coroutines (inline representation 0..3, heap representation 4); every accept/reject answer of the pool and every run/destroy fate of each accepted closure'),
-    unitB('run_async_stopped', ['tp_run_async'] + FNOPS, abstract=['tp_enqueue', 'cq_resume', 'ch_destroy', 'pr_dtor', 'sp_dtor', 'as_start'], types=['SP', 'SPB', 'PROM', 'FUT', 'ASY', 'CH'], harness='h_run_async'),
+    unitB('run_async_stopped', ['tp_run_async'] + FNOPS, abstract=['tp_enqueue', 'cq_resume', 'ch_destroy', 'pr_dtor', 'sp_dtor', 'as_start'], types=['SP', 'SPB', 'PROM', 'FUT', 'ASY', 'CH'], harness='h_run_async',
+          replay=dict(src='c11_stopped_pool.cpp', mode='run_async', flags=['-pthread', '-g'], timeout=60)),
 ]
-META = dict(level='proof', level_text='(under construction)'
-, level_note='', technique='', trusted_base=[], assumptions=[], explanation='')
+META = dict(
+    level='proof',
+    level_text=(
+        'Two layers. POOL LEVEL (enforced CBMC contracts + loop contracts on the real translated bodies, thread-modular: at every acquisition of the pool '
+        'mutex the other threads have executed any number of complete critical sections of enqueue / worker / stop): thread_pool::enqueue, worker '
+        '(service loop incl. the real libstdc++ condition_variable::wait(lk,pred) loop with the real predicate), stop, ~thread_pool, thread_pool(unsigned) '
+        'and its thread body, is_stopped, any_enqueued, is_current, current::is_stopped / any_enqueued / current_awaiter::await_ready, '
+        'resume(suspend_point<void>&) (forwarding facts, any size, both representations) and enqueue_awaiter::perform_resume (co_await pool(awaitable)). '
+        'Closures are linear ghost ids; one arbitrary closure and one arbitrary worker-list index are tracked exactly (ghost-index idiom), totals are counted. '
+        'Proved: enqueue pushes iff the exit flag is clear at the instant the lock is taken, wakes a worker, and leaves a rejected closure untouched with '
+        'its owner; every closure a worker dequeues (under the lock) is invoked exactly once with the lock released and the thread-local current-pool '
+        'pointer is tested before the pool is touched again (the job may have stopped and destroyed it); a worker leaves only when it saw the exit flag '
+        'under the lock or its own job stopped the pool; stop() sets the flag, notifies all and swaps BOTH containers out inside one critical section, '
+        'destroys every swapped-out closure un-run exactly once outside the lock, joins every other worker exactly once and detaches exactly itself '
+        '(resetting the current-pool pointer) - for worker lists of 0..2^20 threads; ~thread_pool stops exactly once and finds nothing left; the '
+        'constructor starts exactly `threads` (or hardware_concurrency()) workers bound to this pool. Lock discipline (queue / worker list only under the '
+        'lock, exit flag written under the lock and never cleared, no closure invoked or destroyed and no join / detach while a mutex is held, no '
+        'self-join, no recursive lock, nothing of the pool used after a job destroyed it) is asserted inside the primitives. '
+        'CLOSURE LEVEL (exhaustive symbolic execution of the REAL closures, the REAL cocls::function<void()> type-erasure machinery with its virtual '
+        'dispatch, std::unique_ptr + cancelling deleter, std::tuple; the pool\'s answer accept / reject and the fate run / destroyed-un-run of an accepted '
+        'closure are inputs): co_await pool - closure run => handle cleared first, coroutine resumed exactly once, deleter disarmed; destroyed un-run or '
+        'rejected => the deleter resumes the coroutine exactly once with the handle still set and await_resume() throws await_canceled_exception; the '
+        'awaiter is freed inside the resumption, so "never touched afterwards" is checked too. run(fn): value / the job\'s exception / broken promise '
+        '(destroyed un-run or rejected), exactly one resolution, job run at most once, nothing escapes into the worker. run_detached: job run at most '
+        'once, job object destroyed exactly once in every outcome. function<>: construct (small in place / large on the heap), move-construct, '
+        'move-assign, call, destroy, empty call -> bad_function_call; every target destroyed exactly once, no leak. A lemma over the contracts '
+        '(unbounded number of submit / serve / stop steps) concludes: never executed twice, never executed and cancelled, nothing left behind once stopped.'),
+    level_note=(
+        'FAILS on the unchanged tree (as intended): KNOWN FINDING - resume(suspend_point) and run(async) (and through them co_await pool(awaitable)) wrap raw '
+        'coroutine handles in plain closures; units resume_sp_stopped / run_async_stopped fail on the four obligations whose text starts with "C11-FINDING" '
+        '(closure rejected by a stopped pool / queued closure destroyed un-run by stop() => coroutine neither resumed nor cancelled; the future of run(async) '
+        'stays pending forever); native reproduction replay/c11_stopped_pool.cpp. NEW FINDING - worker() destroys the executed closure after re-locking the '
+        'pool mutex (obligation "a closure is destroyed while the pool mutex is held" in unit worker): a destructor of captured user state that touches the '
+        'pool self-deadlocks the worker; native reproduction replay/c11_dtor_under_lock.cpp, proposed patch specs/C11/fix_worker_closure_dtor_under_lock.diff '
+        '(unit verifies completely with it). OBSERVATION (property C03): current_awaiter::await_ready reads _exit without the pool mutex (IR: plain '
+        '`load i8, i8* %_exit`, no call in the function); the lock-discipline clause is opt-in (C11_LOCKCHECK_AWAIT_READY=1, then fails; patch '
+        'specs/C11/fix_await_ready_lock.diff makes it pass). is_stopped() / any_enqueued() read under the lock (proved). '
+        'NOT COVERED: LIVENESS - "terminate and join without deadlock for every timing" is not provable in this family; only the safety side is proved '
+        '(lock not held at join / detach / closure invocation / closure destruction, lock held at wait, no self-join, non-recursive lock, notify_all issued, '
+        'exit flag monotone) - that a joined worker actually returns, that notified workers wake, fairness of the mutex are assumed. Also not covered: '
+        'ordering of execution (the queue is an abstract multiset; C11 claims none), resume<bool> / resume(&&) / run(async&&) (one-line forwarders of the '
+        'covered functions; resume<bool> is executed inside run_async_stopped), enqueue_awaiter::await_ready/await_suspend/await_resume (forward to the '
+        'wrapped awaiter), jobs that throw out of run_detached (std::terminate by design), concurrent stop() with destruction from another thread (misuse), '
+        'a worker() called by hand on a foreign thread (leaves the current-pool pointer set), hardware_concurrency() == 0 (constructor then builds a pool '
+        'without workers: submissions wait until stop() cancels them). Bounded: resume_sp_stopped drives the real closures for suspend points of 0..4 '
+        'coroutines (its unbounded counterpart resume_sp_fwd has the closure abstract).'),
+    technique=('CBMC 6.11 code contracts + loop contracts enforced via goto-instrument --dfcc on the C translation of the clang IR of thread_pool.h (pool level, '
+               'thread-modular with a rely step at every lock acquisition); plain exhaustive symbolic execution of the translated real closures and function.h '
+               '(closure level); assumed-contract primitives for std::queue / std::vector<std::thread> / std::thread / condition_variable / pthread mutex; '
+               'lemma harness with loop contract over the contracts; native replays on real threads'),
+    trusted_base=[
+        'assumed contracts on dependencies (lib/model_tpool.c): std::queue<function<void()>> as an abstract multiset of closure ids with a length (two objects: the pool member and the local of stop()); '
+        'std::vector<std::thread> by its representation pointers over a harness-allocated element array; std::thread::join / detach / get_id / constructor, pthread_self, hardware_concurrency; '
+        'std::condition_variable wait (releases, lets others act, re-acquires; may wake spuriously) / notify (counted); iterator dereference re-anchored on the element array',
+        'closure cell model of cocls::function<void()> at the pool level (move = the id travels, call = obligations + "the job may stop / destroy the pool", destructor = the closure dies); the real machinery is verified at the closure level',
+        'std::mutex via pthread primitives with lock-discipline obligations and rely / snapshot hooks (lib/model_mutex.c + tp_on_lock / tp_on_unlock in lib/model_tpool.c)',
+        'closure level: thread_pool::enqueue as accept / reject input, coro_queue::resume as recording primitive whose resumed coroutine evaluates await_resume() and frees its awaiter, '
+        'promise<int> as one word with recorded outcome (value / exception / dropped), async<int>::start as "claims the promise, hands back the coroutine", observation hooks of the driver\'s callables (drivers/c11_pool.cpp)',
+        'rely of the pool mutex: exit flag only false -> true, and from then on queue and worker list are empty; otherwise arbitrary queue length; the tracked closure may be taken by another worker or submitted by another thread',
+    ],
+    assumptions=[
+        'rely/guarantee soundness: each function conforms to the rely for every behaviour of the others; that every interleaving of critical sections then satisfies the pool invariant is the standard argument (DESIGN 3.5), not machine-checked',
+        'closure ids are unique (cocls::function is move-only: a closure is in exactly one place); ghost counters are mathematical (never wrap)',
+        'user jobs do not throw out of a plain closure (run(fn) catches; co_await / resume closures call noexcept paths); a job may stop and destroy the pool it runs on, nothing else destroys a pool while its workers run',
+        'the worker list holds joinable threads while the pool runs (established by the constructor unit, preserved because only stop() touches the list)',
+        'liveness is out of reach: join() returns, notified waiters wake, the mutex is fair - assumed, not proved',
+        'closure-level scenarios: one submission per scenario (resume(suspend_point): up to 4); what the pool does with an accepted closure is exactly one of run / destroy-un-run, exactly once (proved at the pool level by units worker and stop)',
+    ],
+    explanation='see level_text / level_note')
